@@ -6,10 +6,10 @@ import c01
 
 PID = "C06"
 LEVEL = "proof"
-COQ_TARGETS = ["Props/C06.vo", "Props/C06_identity.vo"]
-PROPS_FILES = ["C06", "C06_identity"]
-THEOREMS = ["C06_norm_strict_mono", "C06_exp_strict_mono", "C06_norm_f_is_pdf", "C06_exp_f_is_pdf", "C06_norm_layer_areas",
-            "C06_exp_layer_areas", "C06_exp_base_area", "C06_norm_ends", "C06_exp_ends", "C06_fingerprints",
+COQ_TARGETS = ["Props/C06.vo", "Props/C06_identity.vo", "Props/C06_fp.vo"]
+PROPS_FILES = ["C06", "C06_identity", "C06_fp"]
+THEOREMS = ["C06_fingerprints", "C06_norm_strict_mono", "C06_exp_strict_mono", "C06_norm_f_is_pdf", "C06_exp_f_is_pdf", "C06_norm_layer_areas",
+            "C06_exp_layer_areas", "C06_exp_base_area", "C06_norm_base_area", "C06_norm_base_consts", "C06_norm_ends", "C06_exp_ends", "C06_fingerprints",
             "C06_zig_bits_independent", "C06_zig_u_range", "C06_zig_density_identity", "C06_zig_density_identity_sym",
             "C06_zig_tail_identity", "C06_exp_tail_event", "C06_normal_tail_accept", "C06_normal_tail_density"]
 TRUSTED_BASE = [
@@ -20,9 +20,9 @@ TRUSTED_BASE = [
     "compared entry by entry",
     "hand model of utils.rs:62-96 / normal.rs:62-90 / exponential.rs:65-85 in coq/Model/Continuous.v (zig, norm_zero, exp_zero), "
     "tied by pathwise correspondence incl. crafted words per layer and branch, and by regenerated fingerprints",
-    "normal base strip (X_1 F_1 + tail integral = v) is NOT proved in Coq in this revision: checked numerically (40-digit decimal "
-    "arithmetic, erfc series) by the direct oracle only; density identity is proved for exact tables, the perturbation bound for "
-    "the 1e-8 table tolerance is not formalised",
+    "normal base strip: X_1 F_1 + int_r^40 exp(-x^2/2) dx = X_0 F_1 to 1e-8 is proved by Coq-Interval's `integral` tactic on the regenerated "
+    "constants (Gen/ZigNormTail.v); the remainder beyond 40 (< 1e-340) is not formalised; the density identity is proved for exact tables, the "
+    "perturbation bound for the 1e-8 table tolerance is not formalised",
 ]
 ASSUMPTIONS = ["B1-B4 of DESIGN.md §3", "libm exp/ln within the per-operation budgets of Base/Expr.v"]
 
